@@ -263,7 +263,7 @@ def _strategy():
                  'unknown-command', 'unknown-option-key',
                  'ill-typed-option', 'invalid-option-value', 'bad-signal',
                  'dup-name-case', 'owner-mismatch', 'invalid-json',
-                 'none']))
+                 'ill-typed-envelope', 'none']))
             opts = p.get("options")
             if kind == 'drop-required' and REQUIRED.get(cmd):
                 key = draw(st.sampled_from(REQUIRED[cmd]))
@@ -322,6 +322,8 @@ def _strategy():
                     o.append(["uid", draw(st.sampled_from(
                         ["nobody", 0, "daemon"]))])
                     kinds.append('owner-mismatch')
+            elif kind == 'ill-typed-envelope':
+                kinds.append('ill-typed-envelope')
             elif kind == 'invalid-json':
                 raw = draw(st.sampled_from(
                     ['{"command": "stop", "properties": {}',
@@ -335,6 +337,13 @@ def _strategy():
                 od[kk] = vv
             p["options"] = od
         value = {"id": "q", "command": cmd, "properties": p}
+        if 'ill-typed-envelope' in kinds:
+            if draw(st.integers(0, 3)) == 0:
+                value["command"] = draw(st.sampled_from(
+                    [5, None, [], {"a": 1}, True]))
+            else:
+                value["properties"] = draw(st.sampled_from(
+                    [[], "", [1], "abc", 5, 0, False, None, [[]], 0.0]))
         return {"command": cmd, "kinds": kinds, "value": value, "raw": raw}
 
     return st.fixed_dictionaries({
